@@ -542,13 +542,14 @@ func genCalls(rng *rand.Rand, n int, keyPts []uint32) []ccall {
 	if len(keyPts) > 0 {
 		code = keyPts[0]
 	}
+	var fixed []ccall
 	for _, ty := range []int{0, 1} {
-		calls = append(calls,
+		fixed = append(fixed,
 			ccall{CC: true, Opts: []copt{{K: "hash", Ty: ty, Code: code}, {K: "timeout", Ms: 5000}}},
 			ccall{CC: true, Opts: []copt{{K: "timeout", Ms: 5000}, {K: "hash", Ty: ty, Code: code}}},
 			ccall{CC: true, Opts: []copt{{K: "hash", Ty: ty, Code: code}, {K: "ip", S: "x"}, {K: "port", S: "1"}, {K: "dye", S: "k"}}})
 	}
-	return calls
+	return append(fixed, calls...) // the minimal shapes first: they make the smallest replays
 }
 
 func optShape(opts []copt) string {
